@@ -148,13 +148,14 @@ Definition vstep (s : vst Z) (o : vop) : option (vst Z) :=
   | OExternal f => Some (external s f)
   end.
 
-(* observation after each op: (raised IndexError?, whole field, view items) *)
+(* observation after each op: (raised IndexError?, whole field, view items). Reading the items goes through _base_indices,
+   which heals the window PERSISTENTLY (a window clipped by a shrunken field stays clipped when the field grows again) *)
 Fixpoint vrun (s : vst Z) (ops : list vop) : list (bool * list Z * list Z) :=
   match ops with
   | [] => []
   | o :: r => match vstep s o with
-              | Some s' => (false, fld s', vitems s') :: vrun s' r
-              | None => (true, fld s, vitems s) :: vrun s r
+              | Some s' => (false, fld s', vitems s') :: vrun (fst (base_indices s')) r
+              | None => (true, fld s, vitems s) :: vrun (fst (base_indices s)) r
               end
   end.
 
